@@ -382,8 +382,8 @@ func writeEvidence(vd string, spec *CheckSpec, tier string, seed int, wall, load
 	for _, es := range all {
 		states += es.Completed
 		trans += es.Decisions
-		evals += es.Solver.Queries
-		nontriv += es.SymbolicPath
+		evals += es.Paths
+		nontriv += es.Nontrivial
 		solver.add(&es.Solver)
 		for _, s := range es.Samples {
 			if len(samples) < 6 {
@@ -434,7 +434,7 @@ func writeEvidence(vd string, spec *CheckSpec, tier string, seed int, wall, load
 		"samples":                       samples,
 		"evaluations":                   evals,
 		"distinct_nontrivial":           nontriv,
-		"rule":                          "a case is one feasible path of the harness through the real code's SSA (a distinct decision list: branch outcomes on symbolic conditions, concretisations, shape choices, scheduler choices); it is non-trivial when its path condition mentions at least one symbolic input. evaluations = SMT queries discharged; states = completed paths; transitions = decisions taken",
+		"rule":                          "a case is one execution of a harness entry through the real code's SSA along one decision list (branch outcomes on symbolic conditions decided by the solver, concretisations, shape choices, scheduler choices); evaluations = executions started (including those cut because their global state had already been explored, or infeasible ones); a completed execution is non-trivial when at least one of its decisions was a genuine fork (both outcomes feasible / several schedules possible); decision lists are distinct by construction. states = completed executions; transitions = decisions taken; SMT queries are reported under coverage.solver",
 		"exhaustive":                    exhaustive,
 		"functions_encoded":             fnames,
 		"intrinsics_and_stubs_hit":      sortedKeys(intr),
